@@ -32,12 +32,13 @@ func init() {
 
 func runC03(e *Env) {
 	r := e.R
+	// first, so that it is reported even when the automaton cannot be built for a reorganised emitter
+	checkPolicyReadOnly(e, e.Host(), "E1.readonly")
 	m := e1Preamble(e, "E1.andor")
 	if m == nil {
 		return
 	}
 	p := m.p
-	checkPolicyReadOnly(e, p, "E1.readonly")
 	checkMerge(e, m)
 	checkCondSources(e, m)
 	for _, pr := range m.frag.Problems {
@@ -378,6 +379,8 @@ func init() {
 
 func runC04(e *Env) {
 	r := e.R
+	// first, so that it is reported even when the automaton cannot be built for a reorganised emitter
+	checkPolicyReadOnly(e, e.Host(), "E1.readonly")
 	m := e1Preamble(e, "E1.arch")
 	if m == nil {
 		return
@@ -385,7 +388,6 @@ func runC04(e *Env) {
 	p := m.p
 	or := e.Oracle()
 	// the X32 mask literal
-	checkPolicyReadOnly(e, p, "E1.readonly")
 	x32mask := uint64(0)
 	for _, il := range archInfoLits(p.Pkgs[load.PkgArch]) {
 		if il.v.Name() == "X32" && il.mask != nil {
@@ -581,6 +583,8 @@ func init() {
 
 func runC05(e *Env) {
 	r := e.R
+	// first, so that it is reported even when the automaton cannot be built for a reorganised emitter
+	checkPolicyReadOnly(e, e.Host(), "E1.readonly")
 	m := e1Preamble(e, "E1.kinds")
 	if m == nil {
 		return
@@ -588,7 +592,6 @@ func runC05(e *Env) {
 	p := m.p
 	or := e.Oracle()
 	// label typestate problems found while linking
-	checkPolicyReadOnly(e, p, "E1.readonly")
 	for _, o := range append([]*emit.Obj{m.frag}, objList(m)...) {
 		for _, pr := range o.Problems {
 			if pr.Rule != "E1.label" {
